@@ -252,6 +252,12 @@ def load_known(pid):
 # --------------------------------------------------------------------------------------------------
 # runner
 # --------------------------------------------------------------------------------------------------
+def _call_pred(pred, ln, mo, io):
+    import inspect
+    n = len(inspect.signature(pred).parameters)
+    return pred(*(ln, mo, io)[:n])
+
+
 def corpus_lines(pid):
     d = os.path.join(VERIF, "harness", "corpus", pid)
     lines = []
@@ -363,9 +369,17 @@ def run_property(pid, tier, seed, replay=None):
             continue
         # disagreement, or the independent oracle condemns the implementation
         kf = None
+        explain = getattr(mod, "explain", None)
+        if explain is not None and known:
+            names = explain(ln, mo, ios)          # set of predicate names that together account for the whole disagreement
+            byname = {f["predicate"]: f for f in known}
+            if names and all(n in byname for n in names):
+                for n in names:
+                    known_hit.setdefault(byname[n]["id"], (byname[n], ln, mo, io))
+                continue
         for f in known:
             pred = getattr(mod, "KNOWN_PREDICATES", {}).get(f["predicate"])
-            if pred and pred(ln):
+            if pred and _call_pred(pred, ln, mo, ios):
                 kf = f
                 break
         if kf is not None:
